@@ -58,7 +58,7 @@ def dispatch (inp : String) (obs : List String) : Outcome :=
   | some "c12smt" => C12.handleSmt ts obs
   | _ => { verdicts := [.bad s!"unknown record {inp}"] }
 
-def maxReplays : Nat := 20
+def maxReplays : Nat := 400
 
 def flushRecord (s : DState) : IO DState := do
   match s.curInput with
@@ -85,7 +85,7 @@ def flushRecord (s : DState) : IO DState := do
           s := { s with samples := (head, n + 1) :: s.samples.filter (·.1 ≠ head) }
     if !out.verdicts.isEmpty then
       for v in out.verdicts do
-        if s.mismatches + s.oracles + s.bads < 100 then
+        if s.mismatches + s.oracles + s.bads < 4000 then
           IO.println s!"FAIL line={s.lineNo} {v.render}"
         match v with
         | .mismatch .. => s := { s with mismatches := s.mismatches + 1 }
